@@ -267,6 +267,7 @@ def items(tier, seed):
     out += _big_items(tier, seed)
     out += _reward_items(tier, seed)
     out += _engine_items(tier, seed)
+    out += [("scenario", pol, kind, seed) for pol in SCEN_POLICIES for kind in SCEN_REWARDS]
     # interleave heavy and light items deterministically so that workers stay balanced
     return out
 
@@ -1123,6 +1124,98 @@ def _run_engine(res, item):
                 res.observe(got_r, got_d)
 
 
+
+# ------------------------------------------------------------------------------------------------ real scenario
+SCEN_POLICIES = {
+    "munkres": "MunkresDecision",
+    "greedy": "MyopicNaiveGreedyDecision",
+    "random": "RandomDecision",
+    "allvisible": "AllVisibleDecision",
+}
+SCEN_REWARDS = {
+    "simple_sum": ("SimpleSummationReward", ["TimeSinceObservation", "ShannonInformation"]),
+    "cost_constrained": ("CostConstrainedReward", ["ShannonInformation", "LyapunovStability", "SlewTimeMinimization"]),
+    "combined": ("CombinedReward", ["ShannonInformation", "LyapunovStability", "SlewTimeMinimization", "TimeSinceObservation"]),
+}
+
+
+def _run_scenario(res, item):
+    """A real 4-target x 2-sensor scenario (real filters, real metrics, assess() over the in-process ray stand-in):
+    the visibility / reward / decision columns of the tasks table of every step satisfy the same clauses."""
+    from datetime import datetime, timedelta  # noqa: PLC0415
+
+    from resonaate.data.task import Task  # noqa: PLC0415
+    from resonaate.physics.time.conversions import getTargetJulianDate  # noqa: PLC0415
+    from sqlalchemy.orm import Query  # noqa: PLC0415
+
+    global _ENGINE_READY  # noqa: PLW0603
+    _, pol, kind, seed = item
+    _ENGINE_READY = False  # scen.build() starts a fresh cluster / DB
+    start = datetime(2021, 3, 30, 16, 0, 0) + timedelta(minutes=11 * (seed % 7))
+    step, n_steps = 60, 3
+    when = start + timedelta(seconds=step)
+    targets = [
+        scen.target_eci(10001, *scen.overhead_orbit(when, 10.0, 20.0, 900.0)),
+        scen.target_eci(10002, *scen.overhead_orbit(when, 10.0, 50.0, 1200.0, heading_deg=45.0)),
+        scen.target_eci(10003, *scen.overhead_orbit(when, 10.0, 35.0, 6000.0)),
+        scen.target_eci(10004, *scen.overhead_orbit(when, -10.0, 200.0, 900.0)),
+    ]
+    sensors = [scen.ground_sensor(20001, 10.0, 20.0), scen.ground_sensor(20002, 10.0, 50.0)]
+    rname, metrics = SCEN_REWARDS[kind]
+    eng = scen.engine(1, targets, sensors, decision=SCEN_POLICIES[pol], reward=rname, metrics=[{"name": m} for m in metrics])
+    if pol == "random":
+        eng["decision"]["seed"] = seed + 3
+    sc = scen.build(scen.config(start, n_steps + 1, [eng], physics=step))
+    sc.propagateTo(getTargetJulianDate(sc.clock.julian_date_start, timedelta(seconds=n_steps * step)))
+    rows = sc.database.getData(Query(Task))
+    tids, sids = [10001, 10002, 10003, 10004], [20001, 20002]
+    t, s = len(tids), len(sids)
+    by_epoch = {}
+    for r in rows:
+        by_epoch.setdefault(round((r.julian_date - float(sc.clock.julian_date_start)) * 86400.0), []).append(r)
+    res.case("scenario/epochs_with_tasks", {"policy": pol, "reward": kind}, sorted(by_epoch) == [step * k for k in range(n_steps + 1)],
+             signature="C07/scenario/epochs", observed=sorted(by_epoch), expected=[step * k for k in range(n_steps + 1)], item=item)
+    for sec, rws in sorted(by_epoch.items()):
+        case = {"policy": pol, "reward": kind, "second": sec}
+        vis = np.zeros((t, s), dtype=bool)
+        dec = np.zeros((t, s), dtype=bool)
+        rew = np.full((t, s), np.nan)
+        pairs = set()
+        for r in rws:
+            i, j = tids.index(r.target_id), sids.index(r.sensor_id)
+            pairs.add((i, j))
+            vis[i, j], dec[i, j], rew[i, j] = bool(r.visibility), bool(r.decision), float(r.reward)
+        complete = len(rws) == t * s and len(pairs) == t * s and bool(np.isfinite(rew).all())
+        res.case("scenario/task_rows_complete", case, complete, signature="C07/scenario/task_rows", observed=len(rws),
+                 expected=t * s, item=item)
+        if not complete:
+            continue
+        masked = bool((rew[~vis] == 0.0).all())
+        res.case("scenario/reward_masked_by_visibility", case, masked, signature="C07/scenario/reward_of_invisible_pair_nonzero",
+                 observed=rew.tolist(), expected=vis.tolist(), item=item)
+        feas = not (dec & ~vis).any()
+        r1, v1, d1 = rew[None], vis[None], dec[None]
+        if pol == "munkres":
+            _opt, dcodes, near = orc.assignment_oracle(r1, v1, tol=TOL)
+            good = feas and dec.sum(axis=0).max() <= 1 and dec.sum(axis=1).max() <= 1 and bool((near & (dcodes == orc.pack(d1)[:, None])).any())
+        elif pol == "greedy":
+            okg, _u, _ = orc.greedy_oracle(r1, v1, d1)
+            good = feas and bool(okg[0])
+        elif pol == "allvisible":
+            good = bool((dec == vis).all())
+        else:
+            good = feas and bool((dec.sum(axis=0) == vis.any(axis=0)).all())
+        mixed = 0 < int(vis.sum()) < t * s
+        res.case(f"scenario/decision_column/{pol}", dict(case, visible=vis.tolist(), reward_matrix=rew.tolist()), bool(good),
+                 nontrivial=mixed, signature=f"C07/scenario/{pol}/decision_column", observed=dec.tolist(),
+                 expected="policy reference on the stored reward / visibility columns",
+                 outcome=f"visible={int(vis.sum())},tasked={int(dec.sum())},negative_rewards={int((rew < 0).sum() > 0)}", item=item)
+        res.observe(vis, dec, np.round(rew, 9))
+    res.states += len(by_epoch)
+    res.transitions += max(len(by_epoch) - 1, 0)
+    res.traces += 1
+
+
 # ------------------------------------------------------------------------------------------------ dispatch
 _RUNNERS = {
     "lat": _run_lat,
@@ -1137,6 +1230,7 @@ _RUNNERS = {
     "bigfam": _run_bigfam,
     "reward": _run_reward,
     "engine": _run_engine,
+    "scenario": _run_scenario,
 }
 
 
